@@ -267,10 +267,15 @@ View == LET cs == C  n == Len(cs)  rg == Ranges  xs == XsOn(cs)  rs == RsOn(cs) 
   gs     |-> gs,
   ng     |-> [p \in 1..Len(gs) |-> MapOn(cs, NG, gs[p])],             \* normalize_grad
   ug     |-> [p \in 1..Len(gs) |-> MapOn(cs, UG, gs[p])],             \* unnormalize_grad
+  snames |-> Join([i \in 1..Len(vars) |-> [j \in 1..vars[i].size |->       \* get_indexed_variable_names / to_scalar_variables
+                IF vars[i].size = 1 THEN vars[i].name ELSE vars[i].name \o "[" \o ToString(j - 1) \o "]"]]),
+  shasv  |-> [k \in 1..n |-> cs[k].hasv],
+  curin  |-> \A k \in 1..n : cs[k].hasv => Member(cs[k], cs[k].val),  \* the current value is inside the bounds
   idxrev |-> IndexesOn(rg, Reverse(NamesOf(vars))),                   \* get_variables_indexes(reversed names, False)
   idxall |-> IndexesOn(rg, NamesOf(vars))                             \* get_variables_indexes(reversed names, True)
 ]
-EmitView == PrintT(<<"VIEW", vars, intNorm, View>>)
+\* (printed once per distinct state within the depth bound; TLC also evaluates invariants on the states just beyond it)
+EmitView == (TLCGet("level") <= MaxLevel) => PrintT(<<"VIEW", vars, intNorm, View>>)
 
 \* ================================================================== invariants (the property, on the model)
 TypeOK ==
